@@ -229,23 +229,25 @@ fn generic_kind<const MAXG: u16, const L: usize>(k: usize) {
 }
 
 macro_rules! generic_harness {
-    ($name:ident, $k:expr) => {
+    ($name:ident, $k:expr, $g:expr, $u:expr) => {
         #[kani::proof]
-        #[kani::unwind(10)]
+        #[kani::unwind($u)]
         #[kani::stub(alloc::fmt::format, crate::stubs::fmt_format)]
         #[kani::stub(<[u8; 4] as core::convert::TryFrom<&[u8]>>::try_from, crate::stubs::array_try_from)]
         fn $name() {
-            generic_kind::<4, 72>($k);
+            generic_kind::<$g, { 36 + 28 + 2 * $g }>($k);
         }
     };
 }
-generic_harness!(c02_ref, 0);
-generic_harness!(c02_vel, 1);
-generic_harness!(c02_sw, 2);
-generic_harness!(c02_zdr, 3);
-generic_harness!(c02_phi, 4);
-generic_harness!(c02_rho, 5);
-generic_harness!(c02_cfp, 6);
+generic_harness!(c02_ref, 0, 3, 8);
+generic_harness!(c02_vel, 1, 3, 8);
+generic_harness!(c02_sw, 2, 3, 8);
+generic_harness!(c02_zdr, 3, 3, 8);
+generic_harness!(c02_phi, 4, 3, 8);
+generic_harness!(c02_rho, 5, 3, 8);
+generic_harness!(c02_cfp, 6, 3, 8);
+generic_harness!(c02_ref_g8, 0, 8, 18);
+generic_harness!(c02_phi_g8, 4, 8, 18);
 
 /// Absent blocks are reported absent: block count 0, any header.
 #[kani::proof]
@@ -263,3 +265,112 @@ fn c02_no_blocks() {
     wit!(m.header.elevation_number == 7);
     core::mem::forget(m);
 }
+
+// ---- two blocks: dispatch, gaps, permuted pointer table ---------------------------------------
+const KIND_NAMES: [[u8; 3]; 10] = [*b"VOL", *b"ELV", *b"RAD", *b"REF", *b"VEL", *b"SW ", *b"ZDR", *b"PHI", *b"RHO", *b"CFP"];
+
+const fn block_len(kind: usize, data: usize) -> usize {
+    match kind {
+        0 => 52,
+        1 => 12,
+        2 => 28,
+        _ => 28 + data,
+    }
+}
+
+/// Spot checks that tie a decoded non-moment block to ITS bytes (full field tables: c02_header_vol,
+/// c02_elv, c02_rad).
+fn check_fixed_block(m: &Message, kind: usize, b: &[u8], o: usize) {
+    match kind {
+        0 => {
+            let v = match &m.volume_data_block {
+                Some(v) => v,
+                None => panic!("C02: VOL absent"),
+            };
+            assert!(v.lrtup == be16(b, o + 4) && v.volume_coverage_pattern_number == be16(b, o + 40), "C02: VOL decoded from the wrong bytes");
+            assert!(v.latitude.to_bits() == be32(b, o + 8));
+        }
+        1 => {
+            let e = match &m.elevation_data_block {
+                Some(e) => e,
+                None => panic!("C02: ELV absent"),
+            };
+            assert!(e.lrtup == be16(b, o + 4) && e.calibration_constant.to_bits() == be32(b, o + 8), "C02: ELV decoded from the wrong bytes");
+        }
+        _ => {
+            let r = match &m.radial_data_block {
+                Some(r) => r,
+                None => panic!("C02: RAD absent"),
+            };
+            assert!(r.lrtup == be16(b, o + 4) && r.nyquist_velocity == be16(b, o + 16), "C02: RAD decoded from the wrong bytes");
+        }
+    }
+}
+
+/// Message = header(32) + pointer table(8) + GAP1 + block A + GAP2 + block B; the pointer table lists
+/// (A, B) or, when PERMUTE, (B, A).  Moment blocks carry DATA bytes (gates = DATA/word-bytes).
+fn two_blocks<const KA: usize, const KB: usize, const GAP1: usize, const GAP2: usize, const PERMUTE: bool, const DATA: usize, const L: usize>() {
+    let mut b: [u8; L] = kani::any();
+    let oa = 40 + GAP1;
+    let ob = oa + block_len(KA, DATA) + GAP2;
+    assert!(ob + block_len(KB, DATA) == L);
+    b[30] = 0;
+    b[31] = 2;
+    let (p0, p1) = if PERMUTE { (ob, oa) } else { (oa, ob) };
+    b[32..36].copy_from_slice(&(p0 as u32).to_be_bytes());
+    b[36..40].copy_from_slice(&(p1 as u32).to_be_bytes());
+    let mut setup = |o: usize, k: usize| {
+        b[o + 1] = KIND_NAMES[k][0];
+        b[o + 2] = KIND_NAMES[k][1];
+        b[o + 3] = KIND_NAMES[k][2];
+        if k >= 3 {
+            // word size 8 or 16 (symbolic), gates so that the data is exactly DATA bytes
+            let w16: bool = kani::any();
+            let word = if w16 && DATA % 2 == 0 { 16u8 } else { 8u8 };
+            let gates = (DATA / (word as usize / 8)) as u16;
+            b[o + 8..o + 10].copy_from_slice(&gates.to_be_bytes());
+            b[o + 19] = word;
+        }
+    };
+    setup(oa, KA);
+    setup(ob, KB);
+    let (m, pos) = decode_ok(&b);
+    check_header(&m.header, &b);
+    assert!(present_mask(&m) == (1 << KA) | (1 << KB), "C02: blocks routed to the wrong products / extra or missing blocks");
+    let mut chk = |k: usize, o: usize| {
+        if k >= 3 {
+            let g = match generic_of(&m, k - 3) {
+                Some(g) => g,
+                None => panic!("C02: moment block absent"),
+            };
+            let n = check_generic(g, &b, o);
+            assert!(n == DATA);
+        } else {
+            check_fixed_block(&m, k, &b, o);
+        }
+    };
+    chk(KA, oa);
+    chk(KB, ob);
+    // the reader ends after the block named by the LAST pointer
+    let last_end = if PERMUTE { oa + block_len(KA, DATA) } else { ob + block_len(KB, DATA) };
+    assert!(pos as usize == last_end, "C02/C03: reader must end after the last block in pointer order");
+    wit!(b[oa] == 0x44);
+    core::mem::forget(m);
+}
+
+macro_rules! two_block_harness {
+    ($name:ident, $ka:expr, $kb:expr, $g1:expr, $g2:expr, $perm:expr, $data:expr) => {
+        #[kani::proof]
+        #[kani::unwind(10)]
+        #[kani::stub(alloc::fmt::format, crate::stubs::fmt_format)]
+        #[kani::stub(<[u8; 4] as core::convert::TryFrom<&[u8]>>::try_from, crate::stubs::array_try_from)]
+        fn $name() {
+            two_blocks::<$ka, $kb, $g1, $g2, $perm, $data, { 40 + $g1 + block_len($ka, $data) + $g2 + block_len($kb, $data) }>();
+        }
+    };
+}
+two_block_harness!(c02_two_vol_ref, 0, 3, 0, 0, false, 4);
+two_block_harness!(c02_two_ref_vol_permuted_gaps, 3, 0, 3, 1, true, 2);
+two_block_harness!(c02_two_elv_rad_gap, 1, 2, 4, 0, false, 0);
+two_block_harness!(c02_two_phi_rho_permuted, 7, 8, 0, 2, true, 4);
+two_block_harness!(c02_two_cfp_zdr, 9, 6, 1, 0, false, 3);
